@@ -197,17 +197,32 @@ func VerifC02_Interp() {
 	val := zzStringIn("val", zzBound("NV", 3, 4), "<>&\"';{a")
 	zzAssume(!zzContains(pre, "{") && !zzContains(post, "}"))
 	kind := zzChoice("kind", 3)
+	// the element may carry another directive next to the interpolated attribute
+	other := zzChoice("other", 5) // none, v-html, v-text, v-show (truthy), v-if
 	p := &html.Node{Type: html.ElementNode, Data: "p"}
 	switch kind {
 	case 0:
 		p.AppendChild(&html.Node{Type: html.TextNode, Data: pre + "{{ v }}" + post})
 	case 1:
 		p.Attr = []html.Attribute{{Key: "title", Val: pre + "{{ v }}" + post}}
+		switch other {
+		case 1:
+			p.Attr = append(p.Attr, html.Attribute{Key: "v-html", Val: "w"})
+		case 2:
+			p.Attr = append([]html.Attribute{{Key: "v-text", Val: "w"}}, p.Attr...)
+		case 3:
+			p.Attr = append(p.Attr, html.Attribute{Key: "v-show", Val: "yes"})
+		case 4:
+			p.Attr = append([]html.Attribute{{Key: "v-if", Val: "yes"}}, p.Attr...)
+		}
 	case 2:
 		p.Attr = []html.Attribute{{Key: "v-html", Val: "v"}}
 	}
+	if kind != 1 && other != 0 {
+		return
+	}
 	var sb stringsBuilder
-	err := NewVue(nil).RenderNodes(&sb, []*html.Node{p}, map[string]any{"v": val})
+	err := NewVue(nil).RenderNodes(&sb, []*html.Node{p}, map[string]any{"v": val, "w": "W", "yes": true})
 	out := sb.String()
 	zzNote("out", out)
 	zzAssert(err == nil, "C02.interp.render-error")
@@ -221,7 +236,11 @@ func VerifC02_Interp() {
 		zzAssert(zzSquash(zzUnescape(out)) == zzSquash("<p>"+whole+"</p>"), "C02.interp.text-is-neighbours-plus-value")
 	case 1:
 		zzAssert(zzTagOpens(out) == 2 && zzTagQuotes(out) == 2, "C02.interp.attr-one-value")
-		zzAssert(zzUnescape(strings.TrimSpace(out)) == `<p title="`+pre+val+post+`"></p>`, "C02.interp.attr-is-neighbours-plus-value")
+		inner := ""
+		if other == 1 || other == 2 {
+			inner = "W"
+		}
+		zzAssert(zzSquash(zzUnescape(strings.TrimSpace(out))) == zzSquash(`<p title="`+pre+val+post+`">`+inner+`</p>`), "C02.interp.attr-is-neighbours-plus-value")
 	case 2:
 		if val == "" {
 			return
